@@ -231,6 +231,54 @@ RdStatsVerdict(S, ev) ==
         ELSE IF ev.cnt = 1 THEN SingleVerdict(g.gen, g.gp, a, a + ev.incr, ev.ent[1], g.norm.sdf, WideSummary(g.dt))
         ELSE MultiVerdict(g.gen, g.gp, a, ev.incr, ev.ent, g.first, g.next, WideSummary(g.dt))
 
+\* ---- stored summary entries, lifted from the file (C02; C09: gap samples of float signals are absent)
+\* entry i of a SUMMARY chunk of level lvl describes [ts + (i-1)*span, ts + i*span); the samples that exist there are
+\* the parts of written segments inside it.  Level 1 must describe exactly those; higher levels average their
+\* sub-entries with equal weights, which is the exact mean / population variance only where nothing is missing.
+RECURSIVE PieceAgg(_, _, _, _, _)
+\* <<count, sum, sum of squares, min, max>> of the written samples of g in [a, b), from segment i on
+PieceAgg(g, i, a, b, acc) ==
+    IF i > Len(g.segs) THEN acc
+    ELSE LET sg == g.segs[i]
+             lo == SMax(a, sg.a)
+             hi == SMin(b, sg.b)
+         IN IF lo >= hi \/ (sg.src = 0 /\ g.dt \in {"f32", "f64"}) THEN PieceAgg(g, i + 1, a, b, acc)
+            ELSE IF sg.src = 0 THEN            \* the gap of an integer signal is that many zeros
+                 PieceAgg(g, i + 1, a, b, <<acc[1] + (hi - lo), acc[2], acc[3],
+                                            IF acc[1] = 0 THEN 0 ELSE SMin(acc[4], 0), IF acc[1] = 0 THEN 0 ELSE SMax(acc[5], 0)>>)
+            ELSE PieceAgg(g, i + 1, a, b,
+                          <<acc[1] + (hi - lo), acc[2] + Sum(g.gen, g.gp, lo, hi), acc[3] + SumSq(g.gen, g.gp, lo, hi),
+                            IF acc[1] = 0 THEN WMin(g.gen, g.gp, lo, hi) ELSE SMin(acc[4], WMin(g.gen, g.gp, lo, hi)),
+                            IF acc[1] = 0 THEN WMax(g.gen, g.gp, lo, hi) ELSE SMax(acc[5], WMax(g.gen, g.gp, lo, hi))>>)
+
+SumEntryBad(g, lvl, a, b, e, wide) ==
+    LET A == PieceAgg(g, 1, a, b, <<0, 0, 0, 0, 0>>)
+        k == A[1]
+        full == k = b - a
+    IN IF k = 0 THEN FALSE                                   \* nothing written there (all fill): NaN or anything
+       ELSE IF lvl > 1 /\ ~full THEN FALSE                    \* upper levels with something missing: approximate by design
+       ELSE IF e.nan # <<0, 0, 0, 0>> THEN TRUE
+       ELSE IF e.mn.k # "i" \/ e.mn.v # A[4] \/ e.mx.k # "i" \/ e.mx.v # A[5] THEN TRUE
+       \* mean = sum / count: |m1000 * k - 1000 * S| within rounding (k + relative precision)
+       ELSE IF SAbs(e.m1000 * k - 1000 * A[2]) > k + (IF wide THEN 0 ELSE SAbs(1000 * A[2]) \div 1000000) + 1 THEN TRUE
+       \* population variance = (k * Q - S^2) / k^2, in 1/100 units
+       ELSE IF k * (IF g.gen = "ramp" THEN g.gp - 1 ELSE 1) > 46000 \/ k < 2 THEN FALSE
+       ELSE LET v == Var100(k * A[3] - A[2] * A[2], k * k)
+                tol == 2 + v \div 50000
+            IN e.var100 < 0 \/ e.var100 > v + tol \/ e.var100 < v - tol
+
+SumEntriesVerdict(S, ev) ==
+    IF ~FsrAccept(S, ev) THEN ""
+    ELSE LET g == S.sigs[Idx(S.sigs, ev.sig)] IN
+         IF g.gen \notin {"ramp", "bit"} \/ g.bits = 24 \/ g.synth # {} THEN ""
+         ELSE LET bad == { i \in 1..Len(ev.ent) :
+                              SumEntryBad(g, ev.lvl, ev.ts + (i - 1) * ev.span, SMin(ev.ts + i * ev.span, g.next), ev.ent[i], ev.wide) }
+              IN IF bad = {} THEN ""
+                 ELSE LET i == CHOOSE j \in bad : \A m \in bad : j <= m IN
+                      IF HasFill(g, ev.ts + (i - 1) * ev.span, ev.ts + i * ev.span)
+                      THEN "a stored summary entry does not treat gap samples as absent"
+                      ELSE "a stored summary entry does not describe its samples"
+
 \* ---- which blocks were omitted (C15): never the first; on request exactly the blocks the
 \* documented one-block delay prescribes (types above 8 bits; below, constant detection rules)
 IdxZerosVerdict(S, ev) ==
@@ -302,6 +350,7 @@ Verdict(S, ev) ==
       [] ev.e = "RdSignals" -> RdSignalsVerdict(S, ev)
       [] ev.e = "RdSignal"  -> RdSignalVerdict(S, ev)
       [] ev.e = "RdStats"   -> RdStatsVerdict(S, ev)
+      [] ev.e = "SumEntries" -> SumEntriesVerdict(S, ev)
       [] ev.e = "SumCmp"    -> IF ev.a = ev.b THEN "" ELSE "stored summaries differ between omission on and off"
       [] ev.e = "IdxZeros"  -> IdxZerosVerdict(S, ev)
       [] ev.e = "I2T"       -> I2TVerdict(S, ev)
